@@ -551,11 +551,17 @@ impl<R: RuleType> Error<R> {
         let offset = start - 1;
         let line_chars = self.inner.line.chars();
 
+        let mut padded = 0;
         for c in line_chars.take(offset) {
             match c {
                 '\t' => underline.push('\t'),
                 _ => underline.push(' '),
             }
+            padded += 1;
+        }
+        // `\r` characters removed from the displayed line still count as columns
+        for _ in padded..offset {
+            underline.push(' ');
         }
 
         if let Some(end) = end {
